@@ -528,7 +528,8 @@ class C12(Monitor):
         # an integer constant with more decimal digits than the interpreters' int->str
         # limit (4300): to_json_data must refuse it the same way every time
         huge = [{"k": "src", "s": "HP", "src": "v = 0x1" + "0" * 4000 + "\nw = 2**70\n", "mode": "exec", "opt": 0}]
-        return spaces.spread(out, n) + list(spaces.prog_Q()) + list(spaces.prog_P1()) + huge
+        # (first in the list: it has to be seen by a process that has done nothing else)
+        return huge + spaces.spread(out, n) + list(spaces.prog_Q()) + list(spaces.prog_P1())
 
     def cases(self):
         for c in self.programs():
